@@ -212,13 +212,13 @@ class Instantiator:
         if k == "collect":
             return tbl >> X.collect()
         if k == "join":
-            right = self.pipe(st[1])
+            right = self.out.points[st[1]["ref"]] if "ref" in st[1] else self.pipe(st[1])
             if st[2] == "cross":
                 return tbl >> X.cross_join(right, suffix=st[4])
             on = [self.expr(e) for e in st[2]]
             return tbl >> X.join(right, on, st[3], suffix=st[4])
         if k == "union":
-            right = self.pipe(st[1])
+            right = self.out.points[st[1]["ref"]] if "ref" in st[1] else self.pipe(st[1])
             return tbl >> X.union(right, distinct=st[2])
         raise ValueError(f"bad step {st!r}")
 
